@@ -56,7 +56,10 @@ theorem C14_gen_fix_guard :
 
 /-- the countdown idioms the model follows:
 fix / install: decrement, then `<= 0` completes (no guard);
-folder scan / restore: guard `>= 0`, decrement, `== 0` completes; loaded with `max(duration, 1)` only when `<= 0`;
+folder scan / restore: guard `>= 0`, decrement, `== 0` completes; the restore loaded with `max(duration, 1)` only when `<= 0`
+(the LOAD of the folder scan is no longer pinned as text: `Folder.scan` is translated statement by statement and proved equal to
+`Folder.scan` / `Folder.instantScan` for every state — `C14_gen_folder_scan` in Props/C14GenScan.lean — so that a guard-clause
+rewrite of the same meaning does not break this obligation);
 node scan: guard `> 0`, decrement, `== 0` fans out; loaded with `max(duration, 1)` unconditionally;
 all countdowns start at 0. -/
 theorem C14_gen_idioms :
@@ -64,7 +67,6 @@ theorem C14_gen_idioms :
     Gen.Health.installIdiom = ("none", "dec-then-test", "<=") ∧
     Gen.Health.folderScanIdiom = (">=", "dec-then-test", "==") ∧
     Gen.Health.folderRestoreIdiom = (">=", "dec-then-test", "==") ∧
-    Gen.Health.folderScanLoad = ("self.scan_countdown <= 0", "max(self.scan_duration, 1)") ∧
     Gen.Health.folderRestoreLoad = ("self.restore_countdown <= 0", "max(self.restore_duration, 1)") ∧
     Gen.Health.nodeScanIdiom = (">", "dec-then-test", "==") ∧
     Gen.Health.nodeScanLoad = ("none", "max(self.config.node_scan_duration, 1)") ∧
